@@ -57,6 +57,10 @@ partial def spOfJson (j : Json) : Except String Sp := do
   | "tupTyping" => pure (.tupTyping (← sub "x") (← sub "y"))
   | "tupSub" => pure (.tupSub (← sub "x") (← sub "y"))
   | "tupCall" => pure (.tupCall (← sub "x") (← sub "y"))
+  | "tri585" => pure (.tri585 (← sub "x") (← sub "y") (← sub "z"))
+  | "triTyping" => pure (.triTyping (← sub "x") (← sub "y") (← sub "z"))
+  | "triSub" => pure (.triSub (← sub "x") (← sub "y") (← sub "z"))
+  | "triCall" => pure (.triCall (← sub "x") (← sub "y") (← sub "z"))
   | "pipeLit" => pure (.pipeLit (← sub "x") (← valOfJson (← j.getObjVal? "v")) (← (← j.getObjVal? "len").getNat?))
   | s => throw s!"spelling {s}"
 
